@@ -23,9 +23,52 @@ TABLE = {
         'security.sanctioned fails closed; the handler call is dominated by sanctioned(uri, cert); every render_* delegates to the checked path',
         'percent-decoding and normalisation done by Twisted before the resource sees the URI; TLS client verification; deployment-supplied overrides',
     ),
+    'C01': (
+        'abstract interpretation of the release filter with a membership-atom truth table + who-may-write over the call graph + emptiness-domain dataflow (Inv-A) + closure-shape def-use + thread-context reachability',
+        'schedule.next_job_batch withholds a pending target under every assignment of the membership atoms of a queued transitive ancestor in which any '
+        'blocking atom is true (truth table, exhaustive over the abstraction); the ancestors iterated are the ancestry intersected with the queue; the '
+        'released set is the filtered candidate set and leaves todo; nothing but next_job_batch grows do/doing, only dispatch makes task messages and '
+        'hands them to workers; every removal from / rebuild of the queue keeps executing nodes (Inv-A); ancestry is built as a work-list closure and '
+        'copied to algorithm level; release and reply functions are reactor-only',
+        'the induction over concrete schedules; a user run request racing with schedule.build in the loader thread',
+    ),
+    'C03': (
+        'release-filter truth table (own-doing atom) + path counting (exactly-once) over the reply handler and dispatch loop + who-may-write and key-shape agreement for the busy list',
+        'a target in the job\'s own doing set is never released again (with and without queued ancestors); _put appends exactly one message; every '
+        'normal path of a dispatch iteration drains do and drops the batch entry after queuing; worker and message are popped together under a '
+        'min(len,len) bound; Hand._res applies a found reply as complete x1 then update xor purge with the looked-up job and the reply\'s ids, '
+        'swallowing only the failed lookup; the busy list is written only at hand-out / reply sites and its key shapes agree under the field '
+        'correspondence read from every worker reply construction',
+        'workers that never answer; exceptions inside dispatch\'s bare except and inside complete/update/purge; concrete reply orders',
+    ),
+    'C04': (
+        'must-pass-through (prune point) path analysis + emptiness-domain dataflow at queue insertions + filter truth tables (Inv-B) + converse release-filter truth table + gate formula enumeration',
+        'every function that takes elements out of todo/doing passes a both-empty test that removes the node from the queue before returning; every '
+        'insertion into / rebuild of the queue admits only nodes with pending or executing work; with all queued ancestors idle (or none queued) a '
+        'pending target is released and its job returned; the release loop is gated by exactly promotion/pause; the idle observers read the queue',
+        'termination for every completion order (argued from Inv-B + acyclicity + answering workers); timing of the dispatch tick',
+    ),
+    'C13': (
+        'exact finite-state abstract interpretation of the Worker methods over (lock owner x boolean flags) with self-call inlining + who-may-write/who-may-call + acquire/release bracket typestate',
+        'the lock bit is written only by lock_db/unlock_db reached only from the connection primitives, bit and ownership flag move together; the '
+        'lock is taken only in states where it is free, in one reactor step; Mutex.unlock is sent only by the connection that just took the lock and '
+        'the client loop returns only after receiving it; release and connection loss free the lock exactly when this connection owns it and a lost '
+        'connection never takes it; a polling connection is granted a free lock; every comms.acquire is released on all exits of its caller',
+        'fairness between waiters, timing, exceptions from calls outside any try, a second acquire on one connection',
+    ),
+    'C15': (
+        'sign-domain abstract evaluation of the Version methods over all 27 sign triples + scenario truth table of _diff + reaching name-shape analysis of the version tables',
+        'the six comparison methods and newer() agree with the lexicographic order on (design, implementation, bugfix) for every sign triple and no '
+        'repository subclass overrides them; _diff selects a name exactly when it is absent or its current version is not listed; current() and both '
+        'backends\' versions() produce 2/3/4-component tables that build() pairs by equal arity; only the 2-component prefixes of differing names reach '
+        'organize and the todo loop, with the all-targets marker for analyses and the known targets otherwise',
+        'concrete persisted version lists; completeness of db.targets(); what organize/next_job_batch do afterwards (C01-C04)',
+    ),
 }
 
-CLAIMED = sorted(k for k in TABLE if os.path.exists(os.path.join(HERE, 'sa', 'rules', k.lower() + '.py')))
+# properties whose module is finished, reviewed and clean on the tree
+READY = ['C01', 'C03', 'C04', 'C13', 'C15', 'C19']
+CLAIMED = sorted(k for k in READY if k in TABLE and os.path.exists(os.path.join(HERE, 'sa', 'rules', k.lower() + '.py')))
 
 PENDING_REASON = (
     'check under construction in this round (see DESIGN.md section 4 for the planned static rules); not claimed until its rules run clean on the tree'
